@@ -150,6 +150,13 @@ def handleLine (line : String) : String :=
     match program.run rest with
     | some (p, []) => staged p
     | _ => "bad-op"
+  | "D" :: rest =>
+    match program.run rest with
+    | some (p, []) =>
+      let tables := programTables p
+      let per := (List.range p.files.length).map fun i => s!"{i}:{repr (resolveFile cfg p tables i)}:{repr (checkAt cfg p i)}"
+      s!"order={repr (dfsOrder p)} circle={repr (circleDetect p)} " ++ " ".intercalate per
+    | _ => "bad-op"
   | "R" :: f1 :: f2 :: f3 :: f4 :: f5 :: f6 :: rest =>
     match program.run rest with
     | some (p, []) =>
